@@ -190,6 +190,9 @@ def main():
             if it["expect"] == "out_of_scope":
                 # breaks something the twenty properties do not state (see meta.json scope_note): either outcome is fine
                 row["status"] = "out-of-scope (%s)" % ("flagged" if caught_by else "silent")
+            elif it["expect"] == "out_of_reach":
+                # a genuine violation whose trigger no black-box workload produces (see meta.json reach_note)
+                row["status"] = "DETECTED" if caught_by else "missed (out of reach)"
             elif it["expect"] == "detect":
                 row["status"] = "DETECTED" if caught_by else "MISSED"
             else:
